@@ -45,8 +45,8 @@ CLAIM = dict(
           'on their principal domains.'),
     design_ref='DESIGN.md section 5 C23',
     note=('Trusted: Lean kernel, the translator, the exact-arithmetic reading of quantities, the harness and its tolerances. '
-          'One defect of the unchanged tree is recorded as a known finding: unixtime_µs(from_unixtime_µs(400191)) = 400190 '
-          '(floor after a lossy s↔µs detour).'),
+          'One defect found by this check was repaired in numbat: unixtime_µs(from_unixtime_µs(400191)) = 400190 '
+          '(floor after a lossy s↔µs detour; `fix:` commit, regression inputs in the corpus).'),
     technique=('translator from the real AST to Lean + theorems over exact arithmetic (grind, induction) + differential '
                'correspondence (Float bit patterns, exact rational counts) + tolerance oracle on the interpreter'),
 )
